@@ -23,6 +23,24 @@ def processLine (line : String) : String :=
   match Json.parse line with
   | .error e => s!"BADLINE {e}"
   | .ok j =>
+    if str j "k" == "fidmulti" then
+      -- several accepted messages read in one batch: each of them exactly as accepted (payload, stored headers, and a
+      -- trace that is the ingress trace, not the headers)
+      let extra := pairsOf j "extra"
+      let tag := s!"backend={str j "backend"} via={str j "via"} forwardAuth={bool j "forwardAuth"}"
+      let want := (arr j "sent").filterMap fun s =>
+        if nat s "status" != 202 then none
+        else (copyHeaders (multiOf s "reqHeaders") 65536 extra).map fun h => (str s "body", sortPairs h)
+      let got := (arr j "got").map fun g => (str g "payload", sortPairs (pairsOf g "headers"))
+      let key := fun (x : String × List (String × String)) => x.1 ++ "|" ++ toString x.2
+      let sortK := fun (l : List (String × List (String × String))) => l.mergeSort (fun a b => key a ≤ key b)
+      if (arr j "got").any (fun g => (pairsOf g "trace").any (fun p => p.1 != "remote_addr" && p.1 != "path")) then
+        s!"PROP C07 delivered-trace-carries-foreign-fields {tag}"
+      else if sortK got != sortK want then
+        let missing := (sortK want).find? (fun w => !got.contains w)
+        s!"PROP C07 batch-read-differs-from-what-was-accepted {tag} accepted-but-not-delivered-as-such={repr missing} delivered={repr (sortK got)}"
+      else "ok"
+    else
     if str j "k" != "fid" then "ok" else
     let tag := (line.trimAscii.toString.take 900).toString
     let mode := str j "mode"
